@@ -123,6 +123,7 @@ def run_classes():
     schema, prefixes = mk_validator(types)
     results = {}
     stats = {}
+    digests = []
     for cls in X.all_classes():
         key = X.class_key(cls)
         if req.get('only') and key not in req['only']:
@@ -186,7 +187,10 @@ def run_classes():
                                         'detail': {'error': err.message[:400], 'xml': short(b1, 900)}})
                     bad = True
             res['ok'] += not bad
-    return {'results': results, 'stats': stats, 'schema_types': len(types), 'schema_elements': len(elems)}
+            if not bad:
+                import hashlib
+                digests.append(hashlib.sha1(b1).hexdigest()[:10])
+    return {'results': results, 'stats': stats, 'digests': digests, 'schema_types': len(types), 'schema_elements': len(elems)}
 
 
 def last_member(ex):
@@ -329,6 +333,8 @@ def run_props():
     cids = {X.class_key(c): i + 1 for i, c in enumerate(classes)}
     decls = []
     for c in classes:
+        if X.class_key(c).startswith('soapenvelope.'):
+            continue
         try:
             for name, p in X.class_props(c):
                 decls.append((c, name, p))
@@ -400,10 +406,10 @@ def one_prop_case(rng, owner, name, p, kind, conv, cids):
     if rng.random() < 0.5:
         node.set('zzOther', 'o1')
         etree.SubElement(node, etree.QName(X.VERIF_NS, 'Other')).text = 'o2'
-    if rng.random() < 0.25 and kind in ('KAttr', 'KAttrList') and mode in ('scalar', 'words') and conv in ('CStr', 'COther') \
+    if rng.random() < (0.6 if v is None else 0.25) and kind in ('KAttr', 'KAttrList') and mode in ('scalar', 'words') and conv in ('CStr', 'COther') \
             and not isinstance(p, (xs.BooleanAttributeProperty, xs.DecimalListAttributeProperty)):
         node.set(p._attribute_name, 'old')  # noqa: SLF001
-    if rng.random() < 0.25 and kind in ('KText', 'KTextList') and slot_name is not None and mode in ('scalar', 'wsplit') \
+    if rng.random() < (0.6 if v is None else 0.25) and kind in ('KText', 'KTextList') and slot_name is not None and mode in ('scalar', 'wsplit') \
             and conv in ('CStr', 'COther'):
         etree.SubElement(node, slot_name).text = 'old'
     before = pc.tree(etree.fromstring(etree.tostring(node)), own)
